@@ -386,6 +386,7 @@ func init() {
 		if !c.Preload(c.Configs()...) {
 			return
 		}
+		portableWidthRule(c, c.Configs()[0])
 		expFoundations(c) // the final U/W division: Invert raises to p-2 (E-EXP)
 		readFullRule(c)   // key generation reads its seed completely
 		// the ladder's field primitives do not wrap a machine word (engine E-RANGE, stage A, portable back ends)
